@@ -186,6 +186,11 @@ def union(*ks: K) -> K:
         return TOP
     if len(mem) > 1 and EMPTY in mem:
         mem.discard(EMPTY)
+    # an object whose class is known and the same class merely guessed from a parameter name are one kind
+    objs = [m for m in mem if isinstance(m, Obj)]
+    for o in objs:
+        if o.extra == ("DUCK",) and Obj(o.cls) in mem:
+            mem.discard(o)
     nodes = [m for m in mem if isinstance(m, Atom) and m.name == "NODE"]
     if len(nodes) > 1:
         mem -= set(nodes)
